@@ -27,7 +27,11 @@ def status_shape():
     need(len(re.findall(r"\bint\s+main\s*\(", main)) == 1, "main.cc: expected exactly one main()")
     body = main[re.search(r"\bint\s+main\s*\(", main).start():]
     need(len(re.findall(r"catch\s*\(\s*const\s+error_count\s*&", body)) == 1, "main.cc: expected exactly one error_count handler")
-    need(len(re.findall(r"\breturn\s+status\s*;", body)) == 1 and len(re.findall(r"\breturn\b", body)) == 1,
+    # the only other return allowed is the early `return 1;` of the handler wrapped around
+    # handle_debug_options (it runs before any journal is read)
+    early = re.findall(r"try\s*\{\s*handle_debug_options\(argc, argv\);\s*\}\s*catch\s*\(const std::exception& err\)\s*\{[^{}]*\breturn\s+1\s*;\s*\}", body)
+    need(len(re.findall(r"\breturn\s+status\s*;", body)) == 1 and
+         len(re.findall(r"\breturn\b", body)) == 1 + len(early) and len(early) <= 1,
          "main.cc: main() no longer has the single `return status;`")
     need(re.search(r"int\s+status\s*=\s*1\s*;", body), "main.cc: `int status = 1;` not found")
     need(re.search(r"return\s+status\s*;", body), "main.cc: `return status;` not found")
